@@ -15,7 +15,8 @@ CONSTANTS MaxCtx,      \* contexts 1..MaxCtx; context 1 is the root, created fir
           MaxRegs,     \* budget of successful registrations (add_resource / add_resource_factory / add_teardown_callback)
           Names,       \* resource names in play
           Life,        \* see above
-          Flaws        \* include deliberately invalid add calls
+          Flaws,       \* include deliberately invalid add calls
+          Inj          \* include calls of @inject-decorated functions (current context = the acted-on context)
 Types == {"T1", "T2"}
 TypeSets == (SUBSET Types) \ {{}}
 Ctxs == 1..MaxCtx
@@ -148,13 +149,19 @@ GetO(c, t, n, api, opt) ==
   ELSE IF api = "sync" /\ fac[c][k].async THEN o @@ [r |-> "AsyncResourceError"]
   ELSE LET f == fac[c][k] IN
        [o EXCEPT !.ev = <<Ev(c, f.types, f.name, FALSE)>>] @@ [r |-> "gen", v |-> <<"g", c, f.id>>, fid |-> f.id, free |-> FreeKeys(c, f)]
-Get(c, t, n, api, opt) ==
-  /\ Born(c) /\ obs' = GetO(c, t, n, api, opt)
-  /\ IF obs'.r # "gen" THEN UNCHANGED core
-     ELSE LET f == fac[c][Key(t, n)]
-              gid == <<"g", c, f.id>> IN
-          /\ res' = [res EXCEPT ![c] = [kk \in Keys |-> IF kk \in FreeKeys(c, f) THEN [id |-> gid, types |-> f.types, name |-> f.name, gen |-> TRUE] ELSE res[c][kk]]]
-          /\ UNCHANGED <<cstate, parent, fac, td, ending, regs>>
+GetEffect(c, t, n) ==
+  IF obs'.r # "gen" THEN UNCHANGED core
+  ELSE LET f == fac[c][Key(t, n)]
+           gid == <<"g", c, f.id>> IN
+       /\ res' = [res EXCEPT ![c] = [kk \in Keys |-> IF kk \in FreeKeys(c, f) THEN [id |-> gid, types |-> f.types, name |-> f.name, gen |-> TRUE] ELSE res[c][kk]]]
+       /\ UNCHANGED <<cstate, parent, fac, td, ending, regs>>
+Get(c, t, n, api, opt) == Born(c) /\ obs' = GetO(c, t, n, api, opt) /\ GetEffect(c, t, n)
+
+(* Calling a function decorated with @inject whose parameter `p: T = resource(n)` (optional: `Optional[T]`) while c is the
+   current context is the explicit lookup: get_resource for coroutine functions (fk = "async"), get_resource_nowait for
+   plain functions (fk = "sync"); a missing non-optional resource raises ResourceNotFound before the body runs.       *)
+InjectO(c, fk, t, n, opt) == [GetO(c, t, n, fk, opt) EXCEPT !.a = "Inject"]
+Inject(c, fk, t, n, opt) == Inj /\ Born(c) /\ obs' = InjectO(c, fk, t, n, opt) /\ GetEffect(c, t, n)
 
 (* Context.add_teardown_callback(cb): kind "plain" | "raises" (the callback raises when it runs) | "bad" (not callable) *)
 AddTdO(c, kind) ==
@@ -178,6 +185,7 @@ ResP == {p \in Ctxs \X TypeSets \X Names \X Cbs \X ResFlaws : p[5] # "none" => (
 FacP == {p \in Ctxs \X TypeSets \X Names \X BOOLEAN \X FacFlaws : p[5] # "none" => (~p[4] /\ p[2] = {"T1"})}
 GetP == Ctxs \X Types \X Names \X {"sync", "async"} \X BOOLEAN
 TdP == IF Life THEN Ctxs \X {"plain", "raises", "bad"} ELSE {}
+InjP == IF Inj THEN GetP ELSE {}
 Changes(o) == o.r \in {"ok", "gen"}
 \* state-changing steps only; the outcomes that change nothing are LoopObs
 Next ==
@@ -188,6 +196,7 @@ Next ==
   \/ \E p \in FacP : AddFac(p[1], p[2], p[3], p[4], p[5]) /\ Changes(obs')
   \/ \E p \in GetP : Get(p[1], p[2], p[3], p[4], p[5]) /\ Changes(obs')
   \/ \E p \in TdP : AddTd(p[1], p[2]) /\ Changes(obs')
+  \/ \E p \in InjP : Inject(p[1], p[4], p[2], p[3], p[5]) /\ Changes(obs')
 \* the complete step relation, including the steps that change nothing (used for the properties below)
 NextAll ==
   \/ Next
@@ -196,6 +205,7 @@ NextAll ==
   \/ \E p \in FacP : AddFac(p[1], p[2], p[3], p[4], p[5])
   \/ \E p \in GetP : Get(p[1], p[2], p[3], p[4], p[5])
   \/ \E p \in TdP : AddTd(p[1], p[2])
+  \/ \E p \in InjP : Inject(p[1], p[4], p[2], p[3], p[5])
 \* all outcomes of the current state that change nothing, as one sequence
 LoopObs ==
   LET rp == SetToSeq({p \in ResP : Born(p[1]) /\ ~Changes(AddResO(p[1], p[2], p[3], p[4], p[5]))})
@@ -203,6 +213,7 @@ LoopObs ==
       gp == SetToSeq({p \in GetP : Born(p[1]) /\ ~Changes(GetO(p[1], p[2], p[3], p[4], p[5]))})
       tp == SetToSeq({p \in TdP : Born(p[1]) /\ ~Changes(AddTdO(p[1], p[2]))})
       ep == SetToSeq({c \in Ctxs : Life /\ Born(c) /\ ~Changes(EnterO(c))})
+      ip == SetToSeq({p \in InjP : Born(p[1]) /\ ~Changes(InjectO(p[1], p[4], p[2], p[3], p[5]))})
       \* compact rows: the arguments in order, then the result class, then the value id for lookups that return one
       V(o) == IF "v" \in DOMAIN o THEN o.v ELSE 0
   IN [i \in DOMAIN rp |-> <<"AddRes", rp[i][1], rp[i][2], rp[i][3], rp[i][4], rp[i][5], AddResO(rp[i][1], rp[i][2], rp[i][3], rp[i][4], rp[i][5]).r>>]
@@ -211,6 +222,8 @@ LoopObs ==
                                <<"Get", gp[i][1], gp[i][2], gp[i][3], gp[i][4], gp[i][5], o.r, V(o)>>]
      \o [i \in DOMAIN tp |-> <<"AddTd", tp[i][1], tp[i][2], AddTdO(tp[i][1], tp[i][2]).r>>]
      \o [i \in DOMAIN ep |-> <<"Enter", ep[i], EnterO(ep[i]).r>>]
+     \o [i \in DOMAIN ip |-> LET o == InjectO(ip[i][1], ip[i][4], ip[i][2], ip[i][3], ip[i][5]) IN
+                               <<"Inject", ip[i][1], ip[i][2], ip[i][3], ip[i][4], ip[i][5], o.r, V(o)>>]
 Spec == Init /\ [][NextAll]_vars
 
 (* ------------------------------------------------ properties of the design ------------------------------------------- *)
